@@ -24,6 +24,10 @@ EXCL = ["--exclude=*.o", "--exclude=*.a", "--exclude=*.lo", "--exclude=*.la", "-
 
 def one(seed, props):
     sid = os.path.basename(seed.rstrip("/"))
+    patchfile = os.path.join(HERE, seed, "patch.diff")
+    if seed.endswith(".diff"):                       # a bare patch (benign refactorings)
+        patchfile = seed if os.path.isabs(seed) else os.path.join(HERE, seed)
+        sid = os.path.basename(seed)[:-5]
     wt = os.path.join(ROOT, sid)
     shutil.rmtree(wt, ignore_errors=True)
     os.makedirs(os.path.join(wt, "aldor"), exist_ok=True)
@@ -36,7 +40,7 @@ def one(seed, props):
             src = os.path.join("/repo/aldor/aldor/tools/unix", t)
             if os.path.exists(src):
                 shutil.copy2(src, os.path.join(tu, t))
-        p = subprocess.run(["patch", "-p1", "-s", "-d", wt, "-i", os.path.join(HERE, seed, "patch.diff")],
+        p = subprocess.run(["patch", "-p1", "-s", "-d", wt, "-i", patchfile],
                            capture_output=True, text=True)
         if p.returncode != 0:
             return sid, {"_": (9, ["patch does not apply: " + p.stdout[:200]])}
